@@ -225,9 +225,19 @@ func (s *Struct) PropertyFields() []Field {
 // Gen hands out fresh ids while a value is built; building the same recipe twice yields equal values.
 type Gen struct{ n int }
 
+// IRI returns a fresh absolute URL; the presentations rotate (plain, with port, with query, sub-domain with fragment)
+// so that every check that uses the universe also sees IRIs with a port, a query and a fragment.
 func (g *Gen) IRI() ap.IRI {
 	g.n++
-	return ap.IRI(fmt.Sprintf("https://example.com/%d", g.n))
+	switch g.n % 4 {
+	case 1:
+		return ap.IRI(fmt.Sprintf("https://example.com/%d", g.n))
+	case 2:
+		return ap.IRI(fmt.Sprintf("https://example.com:8443/objects/%d", g.n))
+	case 3:
+		return ap.IRI(fmt.Sprintf("https://example.com/search?id=%d&kind=x", g.n))
+	}
+	return ap.IRI(fmt.Sprintf("http://social.example.org/~user/%d#main", g.n))
 }
 
 // Codec restricts shapes to what a codec's normal form can carry.
